@@ -19,7 +19,7 @@ ASSUMPTIONS = [
 COMPONENTS = {"real": ["Exchange", "LimitOrderBook", "Broker", "Trade", "Rebalancing", "BrokerFees", "TrackRecord", "contracts"],
               "harness": ["user-defined AbstractContract subclasses", "Fraction ledger"], "stub": []}
 PROBE_FLOORS = {"add_to_margined_under_spread": 30, "flip_through_zero": 30, "close_exactly": 30,
-                "spot_multiplier_not_1": 30, "two_margined_open": 30, "negative_cash": 10, "rebalance_built_trade": 30, "twin_compared": 167}
+                "spot_multiplier_not_1": 30, "two_margined_open": 30, "negative_cash": 10, "rebalance_built_trade": 30, "twin_compared": 167, "account_resumed_in_another_process": 6}
 
 PROFILE = {
     "oracles": ["c01"],
@@ -43,6 +43,18 @@ def generate(rng, i):
 
 def execute(scenario):
     return acct.execute(scenario, PROP)
+
+
+def _with_checkpoint(gen):
+    def wrapped(rng, i):
+        sc = gen(rng, i)
+        if i % 250 == 7 and len(sc["script"]) >= 4:
+            # fault: the account is pickled mid-script and resumed in another interpreter (another hash seed, freshly
+            # built contract objects) - a checkpoint to disk, a spawned worker
+            sc["resume_at"] = rng.randint(2, len(sc["script"]) - 1)
+            sc["twin"] = None
+        return sc
+    return wrapped
 
 
 def describe(scenario):
@@ -86,3 +98,6 @@ def simplify(scenario):
                 c = copy.deepcopy(sc)
                 del c["script"][k]["targets"][key]
                 yield c
+
+
+generate = _with_checkpoint(generate)
